@@ -145,8 +145,10 @@ let () =
              ()
            end else if is_probe then begin
              incr n_probes; feat "probe";
-             let cok = (match find_line (fun ws -> match ws with "CONNECT" :: _ -> true | _ -> false) with Some c -> connect_ok (words c) | None -> false) in
-             let pred = probe (nat_of_int kk) true cok in
+             let connects = List.filter (fun x -> match words x with "CONNECT" :: _ -> true | _ -> false) seg in
+             let intr = List.length (List.filter (fun x -> kv "errno" (words x) = Some "EINTR") connects) in
+             let cok = (match List.filter (fun x -> kv "errno" (words x) <> Some "EINTR") connects with c :: _ -> connect_ok (words c) | [] -> false) in
+             let pred = probe (nat_of_int kk) true (nat_of_int intr) cok in
              (* getsockname failure and success both end in close *)
              if List.map ev_str pred <> List.map ev_str observed then
                diff (Printf.sprintf "probe s%d: model=[%s] impl=[%s]" kk (String.concat "; " (List.map ev_str pred)) (String.concat "; " (List.map ev_str observed)))
